@@ -166,9 +166,27 @@ fn run_exact(k: Kind, xs: &[f64], out: &mut TrialOut) {
 
 /// f64 run against the exact reference, within the rounding envelope
 fn run_f64(k: Kind, xs: &[f64], out: &mut TrialOut) {
+    run_f64_when(k, xs, None, out)
+}
+
+/// `when`: compare at the selected steps only (the view is still fed every value); the statement's
+/// value is then evaluated from the last 3N + 4 values (streams without zeros: no hold reaches
+/// further back)
+fn run_f64_when(k: Kind, xs: &[f64], when: Option<&dyn Fn(usize) -> bool>, out: &mut TrialOut) {
     let cell = format!("{}/f64", k.name());
-    let xq: Vec<Xq> = xs.iter().map(|x| Xq::of(*x)).collect();
-    let refs = reference(&k, &xq);
+    let xq: Vec<Xq> = if when.is_none() { xs.iter().map(|x| Xq::of(*x)).collect() } else { vec![] };
+    let refs: Vec<Ex<f64>> = if when.is_none() {
+        reference(&k, &xq)
+            .into_iter()
+            .map(|e| match e {
+                Ex::Val(x) => Ex::Val(x.f()),
+                Ex::Nothing => Ex::Nothing,
+                Ex::Skip => Ex::Skip,
+            })
+            .collect()
+    } else {
+        vec![]
+    };
     let n = k.n().unwrap_or(1).max(1);
     let mut v = build_plain::<f64>(&Spec::leaf(k));
     let eps = f64::EPSILON;
@@ -183,8 +201,27 @@ fn run_f64(k: Kind, xs: &[f64], out: &mut TrialOut) {
             out.count("trials_ended_by_panic_of_code_under_test(C15)", 1);
             return;
         };
+        if let Some(f) = when {
+            if !f(t) {
+                continue;
+            }
+        }
         let steps = (t + 1) as f64;
-        let w = ow::win(&xq[..=t], n);
+        // sampled mode: the exact values of this step only
+        let local: Vec<Xq>;
+        let _step = crate::xq::Scope::new();
+        let (w, ref_t): (&[Xq], Ex<f64>) = if when.is_some() {
+            let lo = (t + 1).saturating_sub(3 * n + 4);
+            local = xs[lo..=t].iter().map(|x| Xq::of(*x)).collect();
+            let r = match reference(&k, &local).last() {
+                Some(Ex::Val(x)) => Ex::Val(x.f()),
+                Some(Ex::Skip) => Ex::Skip,
+                _ => Ex::Nothing,
+            };
+            (ow::win(&local, n), r)
+        } else {
+            (ow::win(&xq[..=t], n), refs[t])
+        };
         let nw = w.len() as f64;
         let env_mean = 64.0 * eps * steps * big;
         let env_var = 64.0 * eps * steps * (n as f64 + 1.0) * 4.0 * big * big / (nw - 1.0).max(1.0);
@@ -192,15 +229,14 @@ fn run_f64(k: Kind, xs: &[f64], out: &mut TrialOut) {
         let (var_e, em) = crate::xq::scoped(|| (ow::sample_var(w).f(), ow::mean(w).f()));
         let std_e = var_e.max(0.0).sqrt();
         let tol_std = if var_e > env_var { 2.0 * env_var / std_e } else { env_var.sqrt() };
-        let (Some(g), Ex::Val(e)) = (got, refs[t]) else {
-            if let (Some(g), Ex::Nothing) = (got, refs[t]) {
+        let (Some(g), Ex::Val(e)) = (got, ref_t) else {
+            if let (Some(g), Ex::Nothing) = (got, ref_t) {
                 out.cell(&cell, 1);
                 fail(out, &k, "f64", "definition", t, format!("{:e}", g), "no value".into(), xs, "");
                 return;
             }
             continue;
         };
-        let e = e.f();
         let tol = match k {
             Kind::Sma(_) => env_mean,
             Kind::Cumulative(_) => env_mean * n as f64,
@@ -266,13 +302,42 @@ impl Monitor for C02 {
         "C02"
     }
     fn plan(&self, cfg: &Cfg) -> u64 {
-        (ns(cfg).len() * KINDS.len() * classes().len()) as u64 * cfg.tier.pick(2, 4) + LONG_NS.len() as u64 * KINDS.len() as u64 * cfg.tier.pick(2, 8)
+        (ns(cfg).len() * KINDS.len() * classes().len()) as u64 * cfg.tier.pick(2, 4) + LONG_NS.len() as u64 * KINDS.len() as u64 * cfg.tier.pick(2, 8) + KINDS.len() as u64 * cfg.tier.pick(6, 12)
     }
     fn trial(&self, cfg: &Cfg, idx: u64, out: &mut TrialOut) {
         let nl = ns(cfg);
         let cl = classes();
         let mut rng = Rng::for_trial(cfg.seed, "C02", idx);
         let main = (nl.len() * KINDS.len() * cl.len()) as u64 * cfg.tier.pick(2, 4);
+        let long = LONG_NS.len() as u64 * KINDS.len() as u64 * cfg.tier.pick(2, 8);
+        if idx >= main + long {
+            // histories beyond 2^16 (and 2^17) values at f64, compared at every 997th step, around
+            // the 65 536th and 131 072nd value and at the end: a position or age kept in 16 bits
+            // wraps there.  Positive values (no zero base for Roc, no hold).
+            let j = idx - main - long;
+            let ki = (j % KINDS.len() as u64) as usize;
+            let n = *rng.pick(&[1usize, 2, 3, 8, 32]);
+            let k = kind_at(ki, n);
+            let len = rng.usize(66_000, 70_000) + if rng.coin() { 65_536 } else { 0 };
+            let style = (j / KINDS.len() as u64) % 3;
+            let mut lvl = 0.0f64;
+            let xs: Vec<f64> = (0..len)
+                .map(|i| match style {
+                    0 => 1.0 + rng.range(0, 4096) as f64 / 256.0,                  // noise
+                    1 => 1.0 + i as f64 / 128.0 + rng.range(0, 64) as f64 / 16.0, // noisy rise: old minima are never undercut
+                    _ => {
+                        lvl = (lvl + rng.range(-2, 2) as f64 / 8.0).clamp(0.0, 50.0); // slow walk with ties
+                        2.0 + lvl
+                    }
+                })
+                .collect();
+            out.key(mix(hash_str(&format!("verylong{:?}", k)), gen::hash_f64s(&xs[xs.len() - 64..])));
+            out.count("histories_beyond_65536_values", 1);
+            out.maxi("longest_stream", len as f64);
+            let when = |t: usize| t % 997 == 0 || (65_500..65_620).contains(&t) || (131_030..131_150).contains(&t) || t + 64 >= len;
+            run_f64_when(k, &xs, Some(&when), out);
+            return;
+        }
         if idx >= main {
             // long histories and large windows: state that goes wrong only after thousands of
             // updates, or only for windows beyond some internal threshold, must be reached too
@@ -337,7 +402,7 @@ impl Monitor for C02 {
         v
     }
     fn rule(&self) -> String {
-        "trial = (view kind of the ten listed, N, input class of the 18-class catalogue, scalar), plus long-history trials (2600..9000 values, N in {3, 17, 40, 64, 130, 250}); the real view is fed the stream and after every update its last() (and WelfordOnline's mean()/variance()) is compared with the batch definition evaluated from the recorded history over the last min(t,N) values in exact rational arithmetic: equality at the exact scalar, a-priori rounding envelope (64 eps x steps x largest magnitude seen, scaled per statistic) at f64. distinct = distinct (kind, N, scalar, input hash); non-trivial = at least one Some output compared. Semantic counters (evictions, evictions of the current extremum, flat windows, ties, zero bases) are measured on the inputs by the oracle.".into()
+        "trial = (view kind of the ten listed, N, input class of the 18-class catalogue, scalar), plus long-history trials (2600..9000 values, N in {3, 17, 40, 64, 130, 250}) and, at f64, histories of 66 000..135 000 positive values compared at every 997th step, around the 65 536th and 131 072nd value and at the end; the real view is fed the stream and after every update its last() (and WelfordOnline's mean()/variance()) is compared with the batch definition evaluated from the recorded history over the last min(t,N) values in exact rational arithmetic: equality at the exact scalar, a-priori rounding envelope (64 eps x steps x largest magnitude seen, scaled per statistic) at f64. distinct = distinct (kind, N, scalar, input hash); non-trivial = at least one Some output compared. Semantic counters (evictions, evictions of the current extremum, flat windows, ties, zero bases) are measured on the inputs by the oracle.".into()
     }
     fn assumptions(&self) -> Vec<String> {
         vec![
